@@ -234,8 +234,10 @@ def run_case(case, res):
                         # concretise: inputs from the model (raw cuts are internal; the concrete replay recomputes them)
                         xsv = [api.tensor_from_values(api.real_model_values(r, model_, X, torch.float32), shape, torch.float32) for X in info["X"]]
                         mv = api.real_model_values(r, model_, info["M"], torch.float32)[0] if info["M"] is not None else info["mom"]
-                        res.candidate("ema", "RERR", enc(xsv, mv))
-                        res.candidate("ema", "RERR", enc(xs, float(mom_t) if info["M"] is not None else info["mom"]), note="seed as second witness")
+                        # on a path that took a sentinel branch (a running scale equal to 1) the law is known to fail
+                        tag = "region-witness:scale-one-sentinel" if any(o for _, o, k_ in m.path if k_ == "branch") else "ema"
+                        res.candidate(tag, "RERR", enc(xsv, mv))
+                        res.candidate(tag, "RERR", enc(xs, float(mom_t) if info["M"] is not None else info["mom"]), note="seed as second witness")
         # explore the other side of every sentinel branch of this run
         for i, (c, o, k) in enumerate(m.path):
             if k != "branch":
